@@ -49,6 +49,7 @@ structure DefWF (vf : Def → Bool) (df : Def) : Prop where
 def CObjWF : CObj → Prop
   | .data o => ObjWF o
   | .func _ envs => envs.length ≤ maxFuncEnvs
+  | .abs _ _ _ => True
 
 def EnvWF : Env → Prop
   | .detached values => 0 < values.length ∧ values.length < 2147483648 ∧ ∀ v ∈ values, ValWF v
@@ -155,6 +156,7 @@ theorem marshalC_pos (fuel : Nat) (T : Heap) (x : Val) (c : Ct) (bs : List Nat) 
           cases o with
           | data d => cases d <;> exact W.lead_pos h
           | func di envs => exact W.lead_pos h
+          | abs _ _ _ => simp [W.fail] at h
 
 /-! ### the induction -/
 
@@ -524,6 +526,7 @@ theorem one_paired (fm fu : Nat) (hT : HeapCWF vf T) (ih : OneOKC T vf fm) (ihd 
         cases o with
         | func di envs =>
           exact func_paired T vf fm fu id di envs ihd ihe hfu hwf ho c bs c' tl hc hw
+        | abs _ _ _ => simp [W.fail] at hw
         | data d =>
           cases d with
           | real rb =>
